@@ -4,7 +4,7 @@ SPEC = dict(
     observers=[dict(cmd="obs_cluster", imports=["Model.Cluster"], case_type="Cluster.case", check="Cluster.check_case",
                     args=["-prop", "C19", "-kinds", "endpoint,enc,slots,shards,table,table,do,do,do,multi"],
                     n={"quick": 700, "thorough": 20000}, shard=100)],
-    rule="ENUMERATED on every run (86 cases, independent of the seed): first reply ASK / MOVED x target known / never heard of x GET / SET x next reply value / ASK / MOVED / TRYAGAIN / connection closed x MaxMovedRedirections default / 1, slot moved / migrating / both, each followed by a second command on the slot; and the batch table of C20 (74 cases). RANDOM in addition: generated topologies (1-4 shards, replicas, endpoints \"\" / \"?\" / IPv6 / host names, health, tls-port; overlapping, "
+    rule="ENUMERATED on every run (86 cases, independent of the seed): first reply ASK / MOVED x target known / never heard of x GET / SET x next reply value / ASK / MOVED / TRYAGAIN / connection closed x MaxMovedRedirections default / 1, slot moved / migrating / both, each followed by a second command on the slot; and the batch table of C20 / C28 (202 cases). RANDOM in addition: generated topologies (1-4 shards, replicas, endpoints \"\" / \"?\" / IPv6 / host names, health, tls-port; overlapping, "
          "negative, reversed and oversized ranges; duplicate primaries) as CLUSTER SLOTS and CLUSTER SHARDS replies, 40% with 1-3 "
          "tree mutations (dropped / duplicated / retyped sub-trees) through the exported parsers; the same replies served by a fake node "
          "to NewClient in the four replica configurations with the tables probed at range boundaries; single keyed commands against the "
